@@ -21,7 +21,7 @@ var VIDs = []string{"a", "b"}
 var ProbeV = []string{"a", "b", "z"}
 var ProbeE = []string{"e1", "e2", "e9"}
 var LabelOpts = [][]string{{}, {"K1"}, {"K1", "K2"}, {"X"}}
-var VLabels = []string{"L1", "L2", "X"}
+var VLabels = []string{"L1", "L2", "L3", "X"}
 var GraphNames = []string{"g1", "g2", "g3"}
 
 type Handler struct {
